@@ -41,6 +41,9 @@ class InstrShape(PipeShape):
         super().__init__(sid, **params)
         st = params['stmt']
         src = f".org o0\nt0: {st['text']}\nt1: .byte 238\n"
+        if params.get('muted'):
+            # the statement sits in a muted region: it emits nothing but is assembled (and checked) like any other
+            src = f".org o0\n#mute\nt0: {st['text']}\n#unmute\nt1: .byte 238\n"
         self.params.setdefault('files', {'main.asm': src})
         self.params.setdefault('start', Sym('o0', 0x100, 0x7000))
 
@@ -86,6 +89,8 @@ class InstrShape(PipeShape):
         if out.kind != 'ok':
             return [(f'{tag}.statement_satisfying_every_constraint_is_assembled', z3.Not(accept))]
         ref = O.encode_fields(fields) + [E.bvval(238)]
+        if self.params.get('muted'):
+            ref = [E.bvval(0)] * size + [E.bvval(238)]
         obl = []
         if 'C12' in props:
             obl.append(('C12.accepted_statement_satisfies_every_configured_constraint', accept))
